@@ -237,9 +237,16 @@ namespace adept {
     bound_status = 0;
 
     // Ensure that initial x lies within the specified bounds
+#ifdef RJHOGAN_ADEPT_2_VERIF
+    Vector verif_x0;
+    if (internal::verif_minimizer_hook) { verif_x0 = x; }
+#endif
     bound_status.where(x >= max_x) =  1;
     bound_status.where(x <= min_x) = -1;
     x = max(min_x, min(x, max_x));
+#ifdef RJHOGAN_ADEPT_2_VERIF
+    { internal::VerifMinLog l("PROJ"); if (l.on()) l.v(verif_x0).v(min_x).v(max_x).v(x).iv(bound_status); }
+#endif
 
     int nbound = count(bound_status != 0);
     int nfree  = nx - nbound;
@@ -294,6 +301,10 @@ namespace adept {
 	  modified_hessian.diag_vector() += damping*diag_scaling;
 	}
 	dx = -adept::solve(modified_hessian, gradient);
+#ifdef RJHOGAN_ADEPT_2_VERIF
+	intVector verif_bs;
+	if (internal::verif_minimizer_hook) { verif_bs = bound_status; }
+#endif
 	// Release points at the minimum bound
 	bound_status.where(bound_status == -1
 			   && gradient < 0.0
@@ -302,6 +313,9 @@ namespace adept {
 	bound_status.where(bound_status == 1
 			   && gradient > 0.0
 			   && dx < 0.0) = 0;
+#ifdef RJHOGAN_ADEPT_2_VERIF
+	{ internal::VerifMinLog l("RELLM"); if (l.on()) l.iv(verif_bs).v(gradient).v(dx).iv(bound_status); }
+#endif
       }
 
       nbound = count(bound_status != 0);
@@ -333,9 +347,15 @@ namespace adept {
       // Convergence has been achieved if the L2 norm has been reduced
       // to a user-specified threshold
       if (gradient_norm_ <= converged_gradient_norm_) {
+#ifdef RJHOGAN_ADEPT_2_VERIF
+	{ internal::VerifMinLog l("CONV"); if (l.on()) l.iv(bound_status).v(gradient).i(nfree).r(gradient_norm_).r(converged_gradient_norm_).i(1); }
+#endif
 	status_ = MINIMIZER_STATUS_SUCCESS;
 	break;
       }
+#ifdef RJHOGAN_ADEPT_2_VERIF
+      { internal::VerifMinLog l("CONV"); if (l.on()) l.iv(bound_status).v(gradient).i(nfree).r(gradient_norm_).r(converged_gradient_norm_).i(0); }
+#endif
 
       sub_gradient.clear();
       sub_hessian.clear();
@@ -370,12 +390,20 @@ namespace adept {
 	sub_dx = -adept::solve(sub_hessian, sub_gradient);
 
 	// Limit the maximum step size, if required
+#ifdef RJHOGAN_ADEPT_2_VERIF
+	Vector verif_dx0;
+	if (internal::verif_minimizer_hook) { verif_dx0 = sub_dx; }
+#endif
 	if (max_step_size_ > 0.0) {
 	  Real max_dx = maxval(abs(sub_dx));
 	  if (max_dx > max_step_size_) {
 	    sub_dx *= (max_step_size_/max_dx);
 	  }
 	}
+#ifdef RJHOGAN_ADEPT_2_VERIF
+	{ internal::VerifMinLog l("LIM"); if (l.on()) l.v(verif_dx0).r(max_step_size_).v(sub_dx); }
+	if (internal::verif_minimizer_hook) { verif_dx0 = sub_dx; }
+#endif
 
 	// Check for collision with new bounds
 	intVector new_min_bounds = find(x(ifree)+sub_dx <= min_x(ifree));
@@ -412,6 +440,16 @@ namespace adept {
 	  }	  
 	  sub_dx *= frac;
 	}
+#ifdef RJHOGAN_ADEPT_2_VERIF
+	{
+	  internal::VerifMinLog l("CAP");
+	  if (l.on()) {
+	    Vector vx, vlo, vup;
+	    vx = x(ifree); vlo = min_x(ifree); vup = max_x(ifree);
+	    l.v(vx).v(verif_dx0).v(vlo).v(vup).r(frac).i(ibound).i(bound_type);
+	  }
+	}
+#endif
 
 	// Compute new state vector and cost function, but not
 	// gradient or Hessian for efficiency
@@ -426,6 +464,9 @@ namespace adept {
 	// If cost function is not finite it may be possible to
 	// recover by trying smaller step sizes
 	bool cost_invalid = !std::isfinite(new_cost);
+#ifdef RJHOGAN_ADEPT_2_VERIF
+	{ internal::VerifMinLog l("DAMP"); if (l.on()) l.r(damping).r(new_cost).r(cost_function_).i(cost_invalid ? 1 : 0).r(levenberg_damping_restart_).r(levenberg_damping_max_).r(levenberg_damping_multiplier_).r(levenberg_damping_min_).r(levenberg_damping_divider_); }
+#endif
 
 	if (new_cost >= cost_function_ || cost_invalid) {
 	  // We haven't managed to reduce the cost function: increase
@@ -445,6 +486,9 @@ namespace adept {
 	    else {
 	      status_ = MINIMIZER_STATUS_FAILED_TO_CONVERGE;
 	    }
+#ifdef RJHOGAN_ADEPT_2_VERIF
+	    { internal::VerifMinLog l("DAMPR"); if (l.on()) l.i(0).r(damping).i(static_cast<int>(status_)); }
+#endif
 	    break;
 	  }
 	}
@@ -467,8 +511,15 @@ namespace adept {
 	  if (n_iterations_ >= max_iterations_) {
 	    status_ = MINIMIZER_STATUS_MAX_ITERATIONS_REACHED;
 	  }
+#ifdef RJHOGAN_ADEPT_2_VERIF
+	  { internal::VerifMinLog l("DAMPR"); if (l.on()) l.i(1).r(damping).i(static_cast<int>(status_)); }
+	  { internal::VerifMinLog l("FLAG"); if (l.on()) l.iv(bound_status).v(x).v(min_x).v(max_x); }
+#endif
 	  break;
 	}
+#ifdef RJHOGAN_ADEPT_2_VERIF
+	{ internal::VerifMinLog l("DAMPR"); if (l.on()) l.i(0).r(damping).i(static_cast<int>(status_)); }
+#endif
       } // Inner loop
     }
     while (status_ == MINIMIZER_STATUS_NOT_YET_CONVERGED);
